@@ -29,7 +29,7 @@ CHECKS.update({
         text='Bounded symbolic execution of the real validator on generated well-formed plotfiles (incl. scattered, non-monotone '
              'layouts): for every option combination, level limit and mode the outcome must be "good"; the binary_data comparisons of '
              'header rows against data extrema are z3 decisions, so acceptance holds for all real-valued payloads.',
-        note=TRUST + 'NaN/Inf payloads are outside for the binary_data option (real arithmetic).',
+        note=TRUST + 'Payload is real-valued plus, in the NaN runs, one NaN word per structure (IEEE meaning in min, max, nanmin, nanmax, isclose only; a decision on it through anything else makes the path inconclusive); Inf, several NaNs in one box and NaN header rows are outside for the binary_data option.',
         design='5 C03'),
     'C04': dict(
         technique='symbolic execution of the real Taster on corrupted SymFS trees; file lengths and box-bound errors are z3 variables '
